@@ -352,8 +352,21 @@ func genC09(rt *rapid.T, st *Stats) *UnionCase {
 		maxN, maxM = 16, 26
 	}
 	total, totalM := 0, 0
+	// rarely, one part is a big sparse component (33..44 nodes): size thresholds inside the code are only reachable there
+	bigPart := -1
+	if chance(rt, "big_sparse_part", 1, 40) {
+		bigPart = pick(rt, "which_big", parts)
+		maxN, maxM = 6, 8
+	}
 	for p := 0; p < parts; p++ {
-		n, es := genConnectedPart(rt, maxN, maxM)
+		var n int
+		var es []iedge
+		if p == bigPart {
+			n = rapid.IntRange(33, 44).Draw(rt, "big_n")
+			es = genConnN(rt, n, rapid.IntRange(0, 2).Draw(rt, "big_extra"))
+		} else {
+			n, es = genConnectedPart(rt, maxN, maxM)
+		}
 		total += n
 		totalM += len(es)
 		p := p
@@ -365,7 +378,11 @@ func genC09(rt *rapid.T, st *Stats) *UnionCase {
 	uc.Order = rapid.Permutation(uc.Order).Draw(rt, "interleaving")
 	uc.Opt = &Case{}
 	uc.Opt.Edges = uc.unionEdges()
-	genOptions(rt, uc.Opt, NodeIDs(uc.Opt.Edges), OptSpec{CBs: allCB, Lays: allLay, Poss: posFor(total, totalM, allPos), BKForced: true, Rts: allRt,
+	poss := posFor(total, totalM, allPos)
+	if bigPart >= 0 && total <= 48 && totalM <= total+3 {
+		poss = []int{PosNS, PosNS, PosSink, PosVAlign, PosPackRight, PosBK} // the threshold cases are about the expensive positioner
+	}
+	genOptions(rt, uc.Opt, NodeIDs(uc.Opt.Edges), OptSpec{CBs: allCB, Lays: allLay, Poss: poss, BKForced: true, Rts: allRt,
 		Thorough: true, Virt: true, Sizes: 0, NSZero: true, LSZero: true, DefaultsOK: true})
 	avoidK3(rt, uc.Opt, st, false, []int{RtPolyline, RtStraight, RtOrtho, RtNoop})
 	uc.Opt.Edges = nil
